@@ -60,8 +60,17 @@ def run_constructor(ctx: Ctx, metrics, ech, gm, tp, lists, n_pred=3, n_ref=5):
     return [(out,) + holder[i] for i, out in enumerate(outs)]
 
 
+def _run_rule(ctx, name, fn):
+    """a sub-rule that cannot be evaluated is recorded as undecided; the remaining rules still run"""
+    try:
+        return fn(ctx)
+    except (Undecided, AnchorMissing) as e:
+        ctx.undecided(name, None, None, f"{name}:analysis", f"{type(e).__name__}: {e}")
+        return 0
+
+
 def check(ctx: Ctx):
-    check_global(ctx)
+    _run_rule(ctx, "check_global", check_global)
     # semantic input: the foreground reaching the result is the input's foreground only if the
     # dtype chosen before labelling holds every label (R05.4, R05.6)
     from . import c03, c05
